@@ -252,6 +252,10 @@ def run(ctx):
     for s in [s for s in gen.scale_texts(ctx.rng) if len(s) < 5000]:
         oracle(ctx, s)
     ctx.count('scale texts')
+    # statements around `:=` (the one grouping that absorbs more than its operands): fixed family + random sequences
+    for s in gen.assignment_texts(ctx.rng, ctx.n(600, 12000)):
+        oracle(ctx, s)
+    ctx.count('assignment texts')
     ins = [c['input'] for c in streams.corpus('C03')] + C02.inputs(ctx, ctx.n(2000, 40000), ctx.n(400, 8000))
     extra = list(deep_inputs(ctx)) + list(dictionary_inputs(ctx)) + list(C02.boundary_sweep(2))
     ctx.count('deep/dictionary/boundary inputs', len(extra))
